@@ -870,6 +870,34 @@ def datetime_clauses(T, rng, rep, fails, n):
             r2 = call(T, conv, "convert", c[1]) if c[0] == "ok" else ("none",)
             if r2[0] != "ok" or r2[1] != r1[1]:
                 fail("%s:canonical-text-reads-differently" % nm, "%s: %r reads %r, written %r, read again %r" % (nm, text, r1[1], c, r2), type=nm, text=text)
+    # one ASCII digit of a valid text replaced by the same-valued decimal digit of another script: such a text is not in the OFX notation
+    # and must be refused (every digit position except the offset-minutes field, whose pattern is \\d\\d on the unchanged tree: C09's PARTIAL)
+    SCRIPT_ZEROS = [0xFF10, 0x0660, 0x06F0, 0x0966, 0x0E50, 0x1D7CE]
+    probes = [("DateTime", dtc), ("Time", tmc), ("ListElement(DateTime)", ldtc), ("ListElement(Time)", ltmc)]
+    for k in range(max(6, n // 40)):
+        y, mo, dd = rng.randrange(1000, 9999), rng.randrange(1, 13), rng.randrange(1, 29)
+        hh, mi, ss, ms = rng.randrange(24), rng.randrange(60), rng.randrange(60), rng.randrange(1000)
+        offh = rng.randrange(-12, 15)
+        tails = ["", ".%03d" % ms, ".%03d[%d]" % (ms, offh), ".%03d[%+d:EST]" % (ms, offh), "[%d]" % offh, ".%03d[%+d.30]" % (ms, offh)]
+        hms = "%02d%02d%02d" % (hh, mi, ss)
+        texts = {"DateTime": ["%04d%02d%02d" % (y, mo, dd)] + ["%04d%02d%02d%s%s" % (y, mo, dd, hms, tl) for tl in tails], "Time": [hms + tl for tl in tails]}
+        for nm, conv in probes:
+            base = "Time" if "Time" in nm and "Date" not in nm else "DateTime"
+            for text in texts[base]:
+                if call(T, conv, "convert", text)[0] != "ok":
+                    continue
+                lb = text.find("[")
+                stop = len(text) if lb < 0 else min([i for i in (text.find(".", lb), text.find(":", lb), text.find("]", lb)) if i >= 0])
+                for i in range(stop):
+                    if not ("0" <= text[i] <= "9"):
+                        continue
+                    for z in (SCRIPT_ZEROS if nm in ("DateTime", "Time") else [rng.choice(SCRIPT_ZEROS)]):
+                        bt = text[:i] + chr(z + int(text[i])) + text[i + 1:]
+                        o = call(T, conv, "convert", bt)
+                        rep.count((nm, "convert", bt), nontrivial=False, kind="%s.convert:non-ascii-digit" % nm)
+                        if o[0] == "ok":
+                            fail("%s.convert:non-ascii-digit-accepted" % nm, "%s.convert(%r) -> %r: U+%04X at position %d is not an ASCII digit; the text is not in the OFX notation"
+                                 % (nm, bt, o[1], ord(bt[i]), i), type=base, text=bt)
     # wrong Python types, both directions, also through ListElement, on fresh instances and on instances that have already read a text
     # (handlers are registered at run time by normalize_to_gmt; a dispatcher shared between DateTime and Time would show here)
     utc = datetime.timezone.utc
@@ -990,7 +1018,7 @@ def replay(obj):
             c = call(T, conv, "unconvert", r1[1]) if r1[0] == "ok" else ("none",)
             r2 = call(T, conv, "convert", c[1]) if c[0] == "ok" else ("none",)
             print("replay %s.convert(%r) -> %r, written %r, read again %r   [recorded: %s]" % (r["type"], r["text"], r1, c, r2, obj.get("what")))
-            if ("bad-text" in obj.get("key", "")) == (r1[0] == "ok") or (r1[0] == "ok" and (r2[0] != "ok" or r2[1] != r1[1])):
+            if (("bad-text" in obj.get("key", "")) or ("non-ascii-digit" in obj.get("key", ""))) == (r1[0] == "ok") or (r1[0] == "ok" and (r2[0] != "ok" or r2[1] != r1[1])):
                 fails.append((obj.get("key"), obj.get("what")))
         else:
             print("replay: clause %r is re-evaluated by bin/check C10" % obj.get("key"))
